@@ -615,7 +615,7 @@ def r13(rr, repo):
             var = 'source' if 'source' in v else 'output'
             rr.ob(f'the port of a user-given tcp {var} is reserved when the {var} IS a tcp address', has(g, f"{var}.startswith('tcp://')", True), cmod, n, witness=str(g)[:200], key=f'reserve-sense|{var}')
         elif '.group(' in v:        # the port a regular expression found in some other URL
-            var = 'source' if any('source' in t for t, p in g) else 'output'
+            var = 'outputs_metrics' if any('outputs_metrics' in t for t, p in g) else 'source' if any('source' in t for t, p in g) else 'output'
             matched = any(p and '.match(' + var in t.replace(' ', '') for t, p in g)
             rr.ob(f'the port found in a user-given {var} URL of another scheme is reserved when the pattern matched that {var}', matched, cmod, n, witness=str(g)[:200], key=f'reserve-url-sense|{var}')
             if matched:
@@ -627,7 +627,7 @@ def r13(rr, repo):
                 url_kinds.add('option')
         else:
             rr.unresolved('a reservation of a user-given port takes the port from something this rule does not know', cmod, n, witness=v[:100], key='reserve-kind')
-    rr.ob("ports the user gave outside tcp:// addresses are reserved too: in source URLs, in output URLs of other schemes (Webvis' http://0.0.0.0:5550) and as the `port` option", {'source', 'output', 'option'} <= url_kinds, cmod,
+    rr.ob("ports the user gave outside the tcp:// sources / outputs are reserved too: in source URLs, in output URLs of other schemes (Webvis' http://0.0.0.0:5550), as the `port` option and as the dedicated metrics output (`outputs_metrics`, which binds its own pair of ports)", {'source', 'output', 'option', 'outputs_metrics'} <= url_kinds, cmod,
           scans[0] if scans else pf, witness=f'kinds of non-tcp reservations found: {sorted(url_kinds) or "none"}', key='reserve-non-tcp-ports')
     # 4. numbers become text
     convs = [n for n in walk_scope(pf) if isinstance(n, ast.Assign) and isinstance(n.value, ast.Call) and U(n.value.func) == 'str' and isinstance(n.targets[0], ast.Subscript) and U(n.targets[0].value) == 'config']
